@@ -123,8 +123,10 @@ def strtypes_family(chk, tier):
     if quick:
         configs = configs[::4]
     names = list(DS.CLS)
-    orders = [chk.rng.sample(names, chk.rng.randint(2, 6)) for _ in range(4 if quick else 25)]
-    traces, inputs, extra, I = DS.strtypes_traces(chk, corpus, configs, orders, detect_stride=3 if quick else 1)
+    if not quick:
+        configs = configs[::2]
+    orders = [chk.rng.sample(names, chk.rng.randint(2, 6)) for _ in range(4 if quick else 12)]
+    traces, inputs, extra, I = DS.strtypes_traces(chk, corpus, configs, orders, detect_stride=3 if quick else 4)
     chk.rules.append("%d corpus strings x %d registries (TLC-enumerated op sequences + %d permuted orders): detection, "
                      "all subsets resolved, parse/render/parse of every accepted (string, type)" % (len(corpus), len(configs) + len(orders), len(orders)))
     chk.validate("Trace_StrTypes", traces, inputs, shard=8, batch_extra=extra)
